@@ -79,3 +79,25 @@ def _(self: Union[V21(1, 32), V21(2, 32), V21(4, 32), V21(1, 48), V21(3, 48)]) -
     returns(self.rkh_list[0] if len(self.rkh_list) == 1 else HASH(alg, b"".join(self.rkh_list)), label="single-hash-or-hash-of-concatenation")
     pure()
     sample_with(lambda rnd: {"self": RKHTv21([bytes(rnd.getrandbits(8) for _ in range(32)) for _ in range(rnd.randrange(1, 5))])})
+
+
+# ---- cert block v2.1 root key record: the RoT hash read back from a binary block is the one the block was built with ----------------
+from spsdk.utils.crypto.cert_blocks import RootKeyRecord  # noqa: E402
+
+inline("spsdk.utils.crypto.cert_blocks:RootKeyRecord.__init__", "spsdk.utils.crypto.cert_blocks:RootKeyRecord.get_hash_algorithm",
+       "spsdk.utils.crypto.rkht:RKHTv21.parse", "spsdk.utils.crypto.rkht:RKHT.__init__")
+
+
+@contract("spsdk.utils.crypto.cert_blocks:RootKeyRecord.parse")
+def _(cls: Const(RootKeyRecord), data: Bytes(lo=4 + 4 * 48 + 96)) -> Opaque():
+    # flags byte 0 = number of root keys (1..4) << 4 | curve (1 = P-256, 2 = P-384)
+    requires(data[0] % 16 >= 1 and data[0] % 16 <= 2 and data[0] // 16 >= 1 and data[0] // 16 <= 4)
+    let(n=data[0] // 16, hl=32 if data[0] % 16 == 1 else 48)
+    let(key_at=4 + (hl * n if n > 1 else 0))
+    ensures(result.root_public_key == data[key_at: key_at + 2 * hl], label="root-public-key-behind-the-table")
+    ensures(len(result._rkht.rkh_list) == n, label="one-hash-per-root-key")
+    ensures(implies(n == 1 and hl == 32, result._rkht.rkh_list[0] == HASH("sha256", data[4:68])), label="single-p256-root-key-is-hashed-with-sha256")
+    ensures(implies(n == 1 and hl == 48, result._rkht.rkh_list[0] == HASH("sha384", data[4:100])), label="single-p384-root-key-is-hashed-with-sha384")
+    ensures(implies(n > 1, all(result._rkht.rkh_list[i] == data[4 + hl * i: 4 + hl * (i + 1)] for i in range(n))), label="table-entries-in-order")
+    pure()
+    sample_with(lambda rnd: {"cls": RootKeyRecord, "data": bytes([rnd.randrange(1, 5) * 16 + rnd.randrange(1, 3)]) + bytes(rnd.getrandbits(8) for _ in range(320))})
